@@ -26,3 +26,10 @@ func TestWalks(t *testing.T) {
 	a := New(t, c)
 	graph.RunWalks(t, a, a.W.Ctx, a.W.DumpHash)
 }
+
+func TestRecord(t *testing.T) {
+	var c Consts
+	graph.Const(&c)
+	a := New(t, c)
+	graph.RunRecord(t, a, a.W.Ctx)
+}
